@@ -693,7 +693,7 @@ def run_cases(ck, hb, db, cases, label, batch=60, hist=8, text=True):
         res = results[key]
         ref = res["ref"]
         md = c.parse_model(mline)
-        ck.cov["evaluations"] += len(res) - 1
+        ck.cov["evaluations"] += sum(1 for m in MODES if m in res)
         sig = hashlib.sha1(("%s|%s" % (c.op.split(" ", 2)[2], key[1])).encode()).hexdigest()
         if md.get("error"):
             ck.report_failure(label, [c.op, "V " + vals_line(v)], ["(n/a)"], [md["error"]], [])
@@ -760,7 +760,7 @@ def run_cases(ck, hb, db, cases, label, batch=60, hist=8, text=True):
         c, v, key = keys[len(keys) // 2]
         ck.cov["samples"].append({"kernel": c.describe(), "values": vals_line(v),
                                   "sequential": fmt(results[key]["ref"]),
-                                  "backends": {m: (x if isinstance(x, str) else fmt(x)) for m, x in results[key].items() if m != "ref"}})
+                                  "backends": {m: (x if isinstance(x, str) else fmt(x)) for m, x in results[key].items() if m != "ref" and not m.startswith("%")}})
     emu.cleanup()
     # C19: cases with `.bijection = D` ran over all in-range tuples: the executed indices must be exactly 0 .. prod(D)-1
     for c in cases:
